@@ -3,7 +3,7 @@ from vlib import sesscheck
 
 ID = 'C12'
 LEVEL = 'exploration'
-RULE = 'Same program space as C09 with relationship changes weighted up; after every modifying call both ends of every relationship of every object the session holds are read through the public API and must agree with each other (b in a.coll <=> b.ref is a / a in b.coll; one-to-one mutual; symmetric relations symmetric) and with the single-fact reference store. Non-trivial = a program with at least one relationship assignment or collection change on a non-empty diagram; distinct by program hash.'
+RULE = 'Same program space as C09 with relationship changes weighted up; after every modifying call both ends of every relationship of every object the session holds are read through the public API and must agree with each other (b in a.coll <=> b.ref is a / a in b.coll; one-to-one mutual; symmetric relations symmetric) and with the single-fact reference store. Non-trivial = a program with at least one relationship assignment or collection change on a non-empty diagram; distinct by program hash. A share of the programs (one third; one half for C11/C13/C15) comes from the hub family: every relationship starts at one entity, with cascading/unlinking relationships declared around a refusing one, populated, and then aimed operations (pending updates of children, pending removals on the hub collections, new children with explicit keys) precede the delete of the hub, so that deletes refused after part of their cascade are common.'
 ASSUMPTIONS = ['live SQLite (in-memory) with foreign keys enforced immediately',
                'reference store vlib/refstore.py written from the documented relationship/cascade/key semantics (DESIGN.md section 7a)',
                'table and column names are taken from the mapping metadata (names only)']
